@@ -536,6 +536,18 @@ func sameValueLoose0(a, b ssa.Value, depth int) bool {
 				if _, isFree := ua.X.(*ssa.FreeVar); isFree && !assigned {
 					return true
 				}
+				// a cell that is assigned exactly once (a parameter spilled because a closure captures it)
+				if al, isAl := ua.X.(*ssa.Alloc); isAl {
+					n := 0
+					for _, ref := range *al.Referrers() {
+						if st, ok := ref.(*ssa.Store); ok && st.Addr == ssa.Value(al) {
+							n++
+						}
+					}
+					if n == 1 {
+						return true
+					}
+				}
 			}
 		}
 	}
